@@ -65,11 +65,15 @@ type verifC06Snap struct {
 	dests    map[string]bool // service-defaults entries that carry a Destination
 	pqs      map[string]bool
 	links    map[string]bool // gateway kind|gateway|service
+	tags     map[string][]string // peer|node|id -> tags
+	sessChk  map[string]string   // peer|node|check -> status|output of checks of type "session"
+	sessions map[string]bool
 }
 
 func verifC06TakeSnap(s *state.Store) *verifC06Snap {
 	sn := &verifC06Snap{kv: map[string]bool{}, nodes: map[string]bool{}, nodeIDs: map[string]string{}, inst: map[string]string{}, svcCount: map[string]int{},
-		connFor: map[string]string{}, nodeSvcs: map[string]int{}, checks: map[string]string{}, ces: map[string]bool{}, dests: map[string]bool{}, pqs: map[string]bool{}, links: map[string]bool{}}
+		connFor: map[string]string{}, nodeSvcs: map[string]int{}, checks: map[string]string{}, ces: map[string]bool{}, dests: map[string]bool{}, pqs: map[string]bool{}, links: map[string]bool{},
+		tags: map[string][]string{}, sessChk: map[string]string{}, sessions: map[string]bool{}}
 	_ = s.WalkAllTables(func(table string, item interface{}) bool {
 		switch table {
 		case "kvs":
@@ -82,6 +86,7 @@ func verifC06TakeSnap(s *state.Store) *verifC06Snap {
 			x := item.(*structs.ServiceNode)
 			sn.inst[x.PeerName+"|"+strings.ToLower(x.Node)+"|"+x.ServiceID] = x.ServiceName
 			sn.svcCount[x.PeerName+"|"+x.ServiceName]++
+			sn.tags[x.PeerName+"|"+strings.ToLower(x.Node)+"|"+x.ServiceID] = x.ServiceTags
 			if x.ServiceKind == structs.ServiceKindConnectProxy {
 				sn.connFor[x.PeerName+"|"+strings.ToLower(x.Node)+"|"+x.ServiceID] = x.ServiceProxy.DestinationServiceName
 			} else if x.ServiceConnect.Native {
@@ -91,6 +96,11 @@ func verifC06TakeSnap(s *state.Store) *verifC06Snap {
 		case "checks":
 			c := item.(*structs.HealthCheck)
 			sn.checks[c.PeerName+"|"+strings.ToLower(c.Node)+"|"+string(c.CheckID)] = c.ServiceID + "\x00" + c.Status + "|" + c.Output + "|" + c.Name + "|" + c.Type + "|" + c.Notes
+			if c.Type == "session" {
+				sn.sessChk[c.PeerName+"|"+strings.ToLower(c.Node)+"|"+string(c.CheckID)] = c.Status + "|" + c.Output
+			}
+		case "sessions":
+			sn.sessions[item.(*structs.Session).ID] = true
 		case "config-entries":
 			e := item.(structs.ConfigEntry)
 			sn.ces[e.GetKind()+"/"+e.GetName()] = true
@@ -120,6 +130,7 @@ type verifC06Machine struct {
 	deleted map[string]bool
 	ops     []*vs.Op
 	loops   int
+	loopsDeleted int
 	confirmed bool
 }
 
@@ -510,7 +521,8 @@ func (m *verifC06Machine) step(op *vs.Op) {
 			if !c.Violation(f, key, "%s", detail) {
 				return
 			}
-			if verifkit.Thorough() && fk != "unchanged-index-regress" {
+			if verifkit.Thorough() && fk != "unchanged-index-regress" && !m.confirmed {
+				m.confirmed = true // one confirmation per case through the real loop
 				m.loop(i, op, true)
 			}
 		}
@@ -519,7 +531,23 @@ func (m *verifC06Machine) step(op *vs.Op) {
 		c.Label("write-changed-some-result")
 	}
 	m.shapes(op, snapB, snapA, nChanged, removed)
-	if verifkit.Thorough() && len(loopCand) > 0 && m.loops < verifkit.EnvInt("VERIF_C06_LOOPS", 4) {
+	// sample of (query, write) pairs through the real blockingquery.Query loop (deterministic, synctest): the
+	// transitions found -> deleted get their own budget because the loop treats "not found" specially
+	maxLoops, maxDeleted := 2, 2
+	if verifkit.Thorough() {
+		maxLoops, maxDeleted = verifkit.EnvInt("VERIF_C06_LOOPS", 4), 3
+	}
+	var deleted []int
+	for _, i := range loopCand {
+		if after[i].obs.NotFound && !before[i].obs.NotFound {
+			deleted = append(deleted, i)
+		}
+	}
+	if len(deleted) > 0 && m.loopsDeleted < maxDeleted {
+		m.loopsDeleted++
+		c.Label("loop:found-to-deleted")
+		m.loop(deleted[int(op.Idx)%len(deleted)], op, false)
+	} else if len(loopCand) > 0 && m.loops < maxLoops {
 		m.loops++
 		m.loop(loopCand[int(op.Idx)%len(loopCand)], op, false)
 	}
@@ -629,7 +657,59 @@ func (m *verifC06Machine) shapes(op *vs.Op, b, a *verifC06Snap, nChanged int, re
 	if len(removedLinks) > 0 {
 		c.Label("gateway-link-removed")
 	}
+	// a tag-filtered lookup of the panel loses its last matching instance while the service keeps instances
+	for _, st := range verifC06TagQueries {
+		match := func(sn *verifC06Snap) int {
+			n := 0
+			for k, name := range sn.inst {
+				if name != st.svc || !strings.HasPrefix(k, "|") {
+					continue
+				}
+				all := true
+				for _, want := range st.tags {
+					has := false
+					for _, tg := range sn.tags[k] {
+						has = has || strings.EqualFold(tg, want)
+					}
+					all = all && has
+				}
+				if all {
+					n++
+				}
+			}
+			return n
+		}
+		if match(b) > 0 && match(a) == 0 && a.svcCount["|"+st.svc] > 0 {
+			hard("tag-match-emptied-service-remains")
+			for k := range m.deleted {
+				if strings.HasPrefix(k, "service:|") {
+					hard("tag-match-emptied-after-an-extinction")
+					break
+				}
+			}
+		}
+	}
+	// a session coming or going flips a check of type "session" (updateSessionCheck)
+	sessionsChanged := len(b.sessions) != len(a.sessions)
+	for id := range a.sessions {
+		sessionsChanged = sessionsChanged || !b.sessions[id]
+	}
+	if sessionsChanged {
+		for k, v := range b.sessChk {
+			if av, ok := a.sessChk[k]; ok && av != v {
+				hard("session-driven-check-flip")
+			}
+		}
+	}
 }
+
+type verifC06TagQuery struct {
+	svc  string
+	tags []string
+}
+
+// verifC06TagQueries are the tag-filtered lookups of the panel (ServiceTagNodes / CheckServiceTagNodes).
+var verifC06TagQueries = []verifC06TagQuery{{"web", []string{"a"}}, {"api", []string{"a", "b"}}, {"db", []string{"b"}}}
 
 var verifC06SurveySeen map[string]bool
 
